@@ -54,10 +54,16 @@ fn compile_with<B: Backend + Default>(spec: &Value) -> Result<Vec<String>, Strin
 /// vharness c20child <spec.json> : one compile() call; the verdict goes to standard error
 pub fn child(args: &[String]) -> i32 {
     let spec: Value = serde_json::from_str(&fs::read_to_string(&args[0]).expect("spec")).expect("spec json");
+    // the pipeline hooks of this call (cfg(rasn_verif)): which steps were reached, in which order
+    rasn_compiler::verif::enable();
     let r = if spec["backend"] == "rasn" { compile_with::<RasnBackend>(&spec) } else { compile_with::<TypescriptBackend>(&spec) };
+    let hooks: Vec<String> = rasn_compiler::verif::take().iter().filter_map(|h| serde_json::from_str::<Value>(h).ok())
+        .filter_map(|h| h["hook"].as_str().map(|x| x.to_string())).collect();
+    let delivers = hooks.iter().filter(|h| *h == "deliver").count();
+    let deliver_last = hooks.last().map(|h| h == "deliver").unwrap_or(false);
     match r {
-        Ok(w) => eprintln!("C20RESULT {}", json!({"result": "ok", "warnings": w})),
-        Err(e) => eprintln!("C20RESULT {}", json!({"result": "err", "error": e})),
+        Ok(w) => eprintln!("C20RESULT {}", json!({"result": "ok", "warnings": w, "delivers": delivers, "deliver_last": deliver_last, "hooks": hooks.len()})),
+        Err(e) => eprintln!("C20RESULT {}", json!({"result": "err", "error": e, "delivers": delivers, "deliver_last": deliver_last, "hooks": hooks.len()})),
     }
     0
 }
@@ -277,6 +283,7 @@ fn scenario(ctx: &Ctx, ci: usize, plan: &Value, si: usize, table: &Table) -> Val
             others.push(format!("removed: {k}"));
         }
     }
+    let mut hook_facts = json!({"delivers": -1, "deliver_last": false, "hooks": -1});
     let (result, stdout_cls, detail, warnings) = match output {
         Err(e) => ("spawn-failed".to_string(), "empty", e.to_string(), None),
         Ok(o) => {
@@ -287,6 +294,7 @@ fn scenario(ctx: &Ctx, ci: usize, plan: &Value, si: usize, table: &Table) -> Val
                 match stderr.lines().find_map(|l| l.strip_prefix("C20RESULT ")) {
                     Some(j) => {
                         let v: Value = serde_json::from_str(j).unwrap_or(json!({}));
+                        hook_facts = json!({"delivers": v["delivers"], "deliver_last": v["deliver_last"], "hooks": v["hooks"]});
                         (v["result"].as_str().unwrap_or("?").to_string(), stdout_cls, v["error"].as_str().unwrap_or("").to_string(),
                          v["warnings"].as_array().map(|a| a.iter().map(|x| x.as_str().unwrap_or("").to_string()).collect::<Vec<_>>()))
                     }
@@ -302,6 +310,7 @@ fn scenario(ctx: &Ctx, ci: usize, plan: &Value, si: usize, table: &Table) -> Val
     let ev = json!({"ev": "deliver", "case": ci, "set": si, "api": api, "backend": backend, "srcform": form, "mode": mode, "dest": dest, "input": input,
                     "compiled": refo.status, "result": result, "target_after": target_after, "others": others, "stdout": stdout_cls,
                     "warnings_same": warnings.map(|w| w == refo.warnings).unwrap_or(true), "detail": detail,
+                    "delivers": hook_facts["delivers"], "deliver_last": hook_facts["deliver_last"], "hooks": hook_facts["hooks"],
                     "text_bytes": refo.generated.len(), "old_bytes": old.len(), "modules": nmods,
                     "asn": literals.join("\n").chars().take(400).collect::<String>()});
     let _ = fs::remove_dir_all(&s);
